@@ -13,6 +13,7 @@ provides the answers for poll n; its arrival is the signal "poll n-1 is complete
     {"status": ANSWER, "acquire": ANSWER, "attest": ANSWER}
 with ANSWER = {"code": 200, "body": <bytes|str|json-able>, "ctype": "application/json"}
             | {"drop": True}            (close the connection without answering)
+            | a callable returning one of these (called when the request arrives; attest gets the guid)
 Missing entries answer 500.  Every request is logged as (poll index, kind, detail).
 In "free" mode (gate=False) status requests are not withheld and `step_fn(n)` supplies the step for
 the n-th status request (used by C08, where the agent may die at any moment).
@@ -25,6 +26,12 @@ import threading
 
 class _Handler(http.server.BaseHTTPRequestHandler):
     protocol_version = "HTTP/1.1"
+
+    def finish(self):
+        try:
+            super().finish()
+        except OSError:
+            pass
 
     def log_message(self, *a):  # silence
         pass
@@ -44,14 +51,12 @@ class _Handler(http.server.BaseHTTPRequestHandler):
             body = json.dumps(body)
         if isinstance(body, str):
             body = body.encode("utf-8")
+        code = int(ans.get("code", 200))
+        head = "HTTP/1.1 %d %s\r\nContent-Type: %s\r\nContent-Length: %d\r\nConnection: close\r\n\r\n" % (
+            code, http.server.BaseHTTPRequestHandler.responses.get(code, ("Status",))[0],
+            ans.get("ctype", "application/json; charset=utf-8"), len(body))
         try:
-            self.send_response(int(ans.get("code", 200)))
-            self.send_header("Content-Type", ans.get("ctype", "application/json; charset=utf-8"))
-            self.send_header("Content-Length", str(len(body)))
-            self.send_header("Connection", "close")
-            self.end_headers()
-            self.wfile.write(body)
-            self.wfile.flush()
+            self.connection.sendall(head.encode("latin-1") + body)      # one segment: one recvfrom on the agent's side
         except OSError:
             pass
         self.close_connection = True
@@ -64,6 +69,8 @@ class _Handler(http.server.BaseHTTPRequestHandler):
         host = self.server.mock
         if self.path.split("?")[0] == "/secure-channel/status":
             self._answer(host._status_request(dict(self.headers)))
+        elif self.path == "/ctl/ping":
+            self._answer({"code": 200, "body": b"pong"})
         else:
             host._log("other", "GET " + self.path)
             self._answer({"code": 404, "body": b""})
@@ -90,6 +97,21 @@ class _Server(http.server.ThreadingHTTPServer):
     def handle_error(self, request, client_address):  # the agent may die mid-request
         pass
 
+    # connections are counted from the moment they are accepted (in the accepting thread), so that
+    # MockHost.quiesce cannot miss a request whose handler thread has not started yet
+    def process_request(self, request, client_address):
+        with self.mock.cv:
+            self.mock.active += 1
+        super().process_request(request, client_address)
+
+    def process_request_thread(self, request, client_address):
+        try:
+            super().process_request_thread(request, client_address)
+        finally:
+            with self.mock.cv:
+                self.mock.active -= 1
+                self.mock.cv.notify_all()
+
 
 class MockHost:
     def __init__(self, gate=True, step_fn=None):
@@ -102,6 +124,8 @@ class MockHost:
         self.current = 0          # poll index of the status request answered last
         self.log = []             # (poll index, kind, detail)
         self.closed = False
+        self.active = 0           # connections being handled
+        self.waiting = 0          # ... of which withheld at the gate
         last = None
         for _ in range(50):       # retry port binds
             try:
@@ -141,6 +165,16 @@ class MockHost:
         with self.cv:
             return list(self.log)
 
+    def quiesce(self, timeout=10.0):
+        """after the agent process died: wait until every request it managed to send has been handled"""
+        import urllib.request
+        try:
+            urllib.request.urlopen(self.base_url + "ctl/ping", timeout=timeout).read()
+        except Exception:
+            pass
+        with self.cv:
+            return self.cv.wait_for(lambda: self.active - self.waiting <= 0, timeout)
+
     def close(self):
         with self.cv:
             self.closed = True
@@ -162,7 +196,10 @@ class MockHost:
             n = self.arrived
             self.cv.notify_all()
             if self.gate:
+                self.waiting += 1
+                self.cv.notify_all()
                 self.cv.wait_for(lambda: self.released >= n or self.closed)
+                self.waiting -= 1
                 if self.closed and self.released < n:
                     return {"drop": True}
                 step = self.steps.get(n) or {}
@@ -171,7 +208,10 @@ class MockHost:
                 self.steps[n] = step
             self.current = n
             self.log.append((n, "status", None))
-            return step.get("status")
+            ans = step.get("status")
+            if callable(ans):
+                ans = ans()
+            return ans
 
     def _key_request(self, kind, guid, headers, body):
         with self.cv:
@@ -184,5 +224,5 @@ class MockHost:
             self.log.append((n, kind, {"guid": guid, "authorization": auth, "body": body.decode("utf-8", "replace")}))
             ans = step.get(kind)
             if callable(ans):
-                ans = ans(guid)
+                ans = ans(guid) if kind == "attest" else ans()
             return ans
